@@ -12,6 +12,11 @@ Monitors (all reads/migrations run under a deterministic step budget; exhausting
   downgraded_state_migrates   a generated current flow is converted BACKWARDS by the harness's own reference converters
                               (vf/ref/c38_downgrade.py, formats 20..10) and read through the real FlowReader: the result must
                               equal the original state except for the fields the old format could not express
+  old_address_shapes_preserved  (part of the perturbed replay) every address-typed field of the old state (client address / peername /
+                              sockname, server source_address / ip_address / peername / sockname, the same inside an old nested
+                              `via`, the {"address":..} wrapper of formats <= 1.0) is given a 2-tuple or an IPv6 4-tuple
+                              (host, port, flowinfo, scope_id) with IPv4 / IPv6 / v4-mapped hosts; the migrated flow must carry
+                              exactly that address in the corresponding current attribute
   perturbed_history_migrates  intermediate states recorded while the shipped dumps migrate (every converter from (0,11) to 20 is
                               entered) are re-played with their leaf values perturbed type-preservingly through the remaining
                               converter chain: must terminate without error in a schema-valid current flow that survives
@@ -49,7 +54,7 @@ PROPERTY = "C38"
 LEVEL = "exploration"
 BUDGET = {"quick": (40_000, 12), "thorough": (3_000_000, 150)}
 WORKERS = {"quick": 2, "thorough": 16}
-REQUIRED = ["shipped_dump_loads", "current_state_unchanged", "downgraded_state_migrates", "perturbed_history_migrates", "unknown_version_rejected", "old_websocket_history_pairs_own_handshake", "migrated_flow_schema_valid", "migrated_flow_resaves"]
+REQUIRED = ["shipped_dump_loads", "current_state_unchanged", "downgraded_state_migrates", "perturbed_history_migrates", "unknown_version_rejected", "old_websocket_history_pairs_own_handshake", "old_address_shapes_preserved", "migrated_flow_schema_valid", "migrated_flow_resaves"]
 ENGINE = "direct"
 TECHNIQUE = "differential against reference backward converters + schema validity and save/load round trip of migrated flows; converter-chain replay of perturbed recorded states"
 RULE = (
@@ -470,6 +475,56 @@ def new_leaf(r, path, old, none_ok, other_types):
     return old
 
 
+ADDR_HOSTS = ["127.0.0.1", "192.168.0.7", "::1", "::ffff:127.0.0.1", "fe80::1", "2001:db8::2", "::", "0.0.0.0"]
+# address-typed fields of old connection states -> attribute of the current connection they end up in
+ADDR_FIELDS = {
+    "client_conn": {"address": "peername", "peername": "peername", "sockname": "sockname"},
+    "server_conn": {"source_address": "sockname", "sockname": "sockname", "ip_address": "peername", "peername": "peername"},
+}
+
+
+def _dget(d, key):
+    """(actual key, value) for a str key in a dict whose keys may be bytes (formats <= 0.17)."""
+    if key in d:
+        return key, d[key]
+    if key.encode() in d:
+        return key.encode(), d[key.encode()]
+    return None, None
+
+
+def reshape_addresses(r, state, entered) -> dict:
+    """Give address-typed fields of an old state the shapes real captures have: (host, port) for IPv4 peers and the
+    IPv6 4-tuple (host, port, flowinfo, scope_id) for IPv6 / dual-stack peers (e.g. ['::ffff:127.0.0.1', 53976, 0, 0] in the
+    shipped dumpfile-019), with IPv4 / IPv6 / v4-mapped hosts; also inside the {"address": [...], "use_ipv6": ...} wrapper of
+    formats <= 1.0 and inside an old nested `via` connection.  Returns {(conn, current attribute): expected value}."""
+    expect: dict = {}
+    for conn_name, fields in ADDR_FIELDS.items():
+        _, conn = _dget(state, conn_name)
+        if not isinstance(conn, dict):
+            continue
+        targets = [(conn, True)]
+        _, via = _dget(conn, "via")
+        if conn_name == "server_conn" and isinstance(via, dict):
+            targets.append((via, False))
+        for cdict, top in targets:
+            for field, attr in fields.items():
+                key, v = _dget(cdict, field)
+                holder, hkey = cdict, key
+                if isinstance(v, dict):  # formats <= 1.0: {"address": [host, port], "use_ipv6": bool}
+                    k2, inner = _dget(v, "address")
+                    holder, hkey, v = v, k2, inner
+                if not (isinstance(v, list) and len(v) in (2, 4) and isinstance(v[0], (str, bytes)) and isinstance(v[1], int)) or r.random() < 0.4:
+                    continue
+                host = r.choice(ADDR_HOSTS)
+                new = [host.encode() if isinstance(v[0], bytes) else host, r.choice([0, 22, 443, 53976, 65535])]
+                if r.random() < 0.5:
+                    new += [r.choice([0, 0, 5]), r.choice([0, 0, 2])]
+                holder[hkey] = new
+                if top and not (field == "ip_address" and isinstance(entered, tuple) and entered < (0, 17)):
+                    expect[(conn_name, attr)] = [host] + new[1:]
+    return expect
+
+
 def case_perturb(ctx, rec, typesat):
     r = ctx.rng
     k = r.choice(sorted(rec.pool, key=str))
@@ -488,7 +543,11 @@ def case_perturb(ctx, rec, typesat):
                 o = o[p]
             o[path[-1]] = new
             changed += 1
+    expect_addr = reshape_addresses(r, src, k) if r.random() < 0.7 else {}
+    changed += len(expect_addr)
     typ = skey(src.get("type", src.get(b"type", "?")))
+    if typ == "websocket":
+        expect_addr = {}  # an old websocket flow is merged onto its handshake flow, whose connections it takes over
     ctx.count("perturbed_history_migrates")
     try:
         data = T.encode(src)
@@ -504,8 +563,15 @@ def case_perturb(ctx, rec, typesat):
     elif len(flows) != 1:
         ctx.violation("perturbed-historical-state-yields-no-flow", wit)
     else:
-        check_valid_and_resaves(ctx, flows[0], f"perturbed {typ}@{k}", src)
-    ctx.case(("perturb", str(k), typ, min(changed, 3), frac), changed > 0, {"case": "perturb", "entered_converter": str(k), "type": typ, "changed_leaves": changed})
+        got = check_valid_and_resaves(ctx, flows[0], f"perturbed {typ}@{k}", src)
+        if got is not None and expect_addr:
+            ctx.count("old_address_shapes_preserved")
+            for (conn, attr), want in expect_addr.items():
+                if not T.same(got[conn][attr], want):
+                    ctx.violation("address-changed-by-migration", {**wit, "field": f"{conn}.{attr}", "expected": want, "got": got[conn][attr]})
+                    break
+    shapes = tuple(sorted({f"{c}.{a}:{len(v)}" for (c, a), v in expect_addr.items()}))
+    ctx.case(("perturb", str(k), typ, min(changed, 3), frac, shapes), changed > 0, {"case": "perturb", "entered_converter": str(k), "type": typ, "changed_leaves": changed})
 
 
 def case_future(ctx):
